@@ -546,7 +546,8 @@ func checkP(sc *PScn, x *vsched.Exec, ip net.IP, err error, log []string, took t
 			if per[i] != 1 {
 				return "valid-provider-asked-not-once", fmt.Sprintf("provider #%d asked %d times", i, per[i])
 			}
-		case "200-invalid", "4xx":
+		case "200-invalid", "4xx", "5xx":
+			// (the scripted 5xx answer carries a body that is not an address: an invalid body is final whatever the status)
 			if per[i] != 1 {
 				return "final-answer-retried", fmt.Sprintf("provider #%d answered %s and was asked %d times", i, respKinds[sc.Script[i]], per[i])
 			}
